@@ -234,6 +234,9 @@ fn split_doc(text: &str) -> (Vec<String>, Vec<FoundBlock>) {
 }
 
 const WORDS: &[&str] = &["alpha", "beta", "gamma", "delta", "x1", "hello-world", "ok", "zeta", "alpha", "beta", "```text", "````", "```", "`tick`", "two words"];
+/// output lines that look like a command (continuation) and need escaping as well; only used as first output line of
+/// tests whose expectations are wrong anyway (a `> ...` first expectation line would itself be read as a continuation)
+const LOOKALIKES: &[&str] = &["> q\tx", "> \u{1b}[32mready\u{1b}[0m", "$ cost \\d+\ttab", "> plain quoted", "$ plain dollar"];
 const HEREDOC_LINES: &[&str] = &["line one", "", "trail  ", "  lead", "last", "```sh", ""];
 
 fn gen_test(rng: &mut Rng) -> TestBlock {
@@ -241,6 +244,10 @@ fn gen_test(rng: &mut Rng) -> TestBlock {
     let words: Vec<String> = (0..n).map(|_| rng.pick(WORDS).to_string()).collect();
     let code = *rng.pick(&[0u8, 0, 0, 3, 7]);
     let outcome = rng.pick(&["pass", "pass", "wrong-output", "wrong-code", "missing-output"]).to_string();
+    let mut words = words;
+    if (outcome == "wrong-output" || outcome == "missing-output") && rng.chance(1, 4) {
+        words.insert(0, rng.pick(LOOKALIKES).to_string());
+    }
     TestBlock {
         fence: *rng.pick(&[3usize, 3, 3, 4, 5]),
         config: rng.pick(&["", "", " {timeout: 9s}", " {output_stream: combined}", " {keep_crlf: true, timeout: 1m}"]).to_string(),
